@@ -96,7 +96,7 @@ CHECKS.update({
         "level_text": "Fault enumeration: a fixed catalogue of 8 substitution faults (oracle: Err) and 12 shape/wire faults, 1-3 per run (oracle: no panic, abort or hang) applied to honest openings of trees of 2..512 leaves over 6 hashers. Rejection relies on collision resistance: a false accept has probability < 2^-96 per run.",
         "level_note": "Extra trailing proof nodes are not generated as 'differing data' (the statement does not require their rejection). The thorough tier repeats the malformed arm in a build with debug assertions and overflow checks.",
         "design_ref": "DESIGN.md 3/C19",
-        "rule": "a case = (hasher, leaf count, index set, fault list); distinct = distinct hash of (hasher, log leaves, fault kinds); every case injects at least one fault inside the opening.",
+        "rule": "a case = (hasher, leaf count, index set, fault list); distinct = distinct hash of (hasher, log leaves, fault kinds, index-set size or opened index); every case injects at least one fault inside the opening.",
         "assumptions": ["hash functions are collision resistant (probability of a chance accept < 2^-96)"],
         "real_vs_stub": {"real": ["winter-crypto MerkleTree::verify / verify_batch, BatchMerkleProof::get_root / into_openings / read_from"], "stub": ["the link carrying the opening (fault injector)", STUB_ALLOC]},
     },
@@ -108,7 +108,7 @@ CHECKS.update({
         "level_text": "Seeded exploration over histories of new / reseed / draw<E> (base, quadratic, cubic) / draw_integers / check_leading_zeros for 12 hasher x field combinations. Weakest fit of the claimed properties (the coin is sequential), but it is the state machine that keeps prover and verifier in lockstep, and history refinement against a model is what this family offers.",
         "level_note": "The reference model follows the derivation documented on DefaultRandomCoin (seed = hash(elements); next = hash(seed || ++counter); reseed = hash(old || new), counter reset; draw_integers reseeds with the nonce). draw_integers is only called within its documented precondition 1 <= n < domain.",
         "design_ref": "DESIGN.md 3/C20",
-        "rule": "a case = (hasher/field of 12, seed length, history of 2..25 events, fault position); distinct = distinct hash of (hasher/field, seed length) - conservative, histories are not hashed; all non-trivial.",
+        "rule": "a case = (hasher/field of 12, seed length, history of 2..25 events, fault position); distinct = distinct hash of (hasher/field, seed length, kinds of the first 8 events); all non-trivial.",
         "assumptions": ["inequality after a substituted reseed is checked only on draws with >= 62 bits of entropy (chance equality < 2^-61)"],
         "real_vs_stub": {"real": ["winter-crypto DefaultRandomCoin, hashers"], "stub": ["none (the second replica and the reference coin are harness code)"]},
     },
@@ -274,3 +274,20 @@ NOT_APPLICABLE = {
 for _p in ["C01", "C02", "C03", "C04", "C05", "C06", "C07", "C08", "C09", "C12", "C14", "C18", "C19", "C20", "C26", "C28", "C29"]:
     if _p not in CHECKS:
         NOT_APPLICABLE[_p] = PLANNED
+
+# probes that a quick batch is expected to hit; ./check lists the ones stuck at zero in evidence
+_EXPECTED = {
+    "C01": ["255_queries", "width_255", "auxiliary_segment", "periodic_columns", "periodic_assertion", "more_than_one_exemption",
+            "partitioned_row_hashing", "sequence_assertion_64_or_more_values", "degree_5_or_more", "metadata_65535_bytes",
+            "quadratic_extension", "cubic_extension", "prover_ran_under_simulated_scheduler"],
+    "C03": ["adaptive_substitutions"],
+    "C06": ["other_nonce_than_serial", "prover_ran_under_simulated_scheduler", "proof_completed_with_others_in_flight", "task_cancelled_mid_pipeline"],
+    "C09": ["adaptive_remainder_built"],
+    "C12": ["size_at_or_above_concurrency_threshold", "ran_under_simulated_scheduler", "degree_deficient_polynomial", "offset_evaluation_with_blowup"],
+    "C14": ["batched_path_taken", "length_not_divisible_by_batch_count", "zeros_on_batch_boundaries", "ran_under_simulated_scheduler"],
+    "C18": ["parallel_tree_build_with_several_workers", "unsorted_index_list"],
+    "C28": ["column_count_not_divisible_by_segment_width", "partitioned_row_hash", "ran_under_simulated_scheduler"],
+    "C29": ["three_table_constructions_compared", "checker_says_unsatisfied", "checker_says_satisfied"],
+}
+for _k, _v in _EXPECTED.items():
+    CHECKS[_k]["expected_probes"] = _v
